@@ -195,8 +195,20 @@ func genPlanC13(rt *rapid.T) *RPlan {
 		if wait < 20 {
 			wait = 30
 		}
+		// the run has to go on for well over 100 ms after the busy indication (see the oracle's grace)
+		if p.PauseUs < 1000 {
+			p.PauseUs = 1000
+		}
+		per = p.PauseUs + 100
+		need := 260_000/per + 2*lanes
+		if need > 400 {
+			need = 400
+		}
+		if total < need {
+			total = need
+		}
 		add(total, 0)
-		p.Net = []RNet{{AfterUs: rapid.IntRange(0, total*per/lanes/2+1).Draw(rt, "busy-at"), Kind: "busy", WaitMs: wait, Ctl: ctl}}
+		p.Net = []RNet{{AfterUs: rapid.IntRange(0, 20000).Draw(rt, "busy-at"), Kind: "busy", WaitMs: wait, Ctl: ctl}}
 	}
 	return p
 }
